@@ -467,26 +467,20 @@ def r4_block_header(chk, put, mapb, get):
         f = facts[fk]
         chk.decide(f.ok, "C02.R4", f"{mapb.key}:{ok_key}", mapb.where(f.node), f.good, "map_blocks: " + f.bad)
     # UKVRecord geometry
-    want = {"size": ["_BLOCK_HEADER.size", "self.key_len", "self.record_len"],
-            "pos_k": ["_BLOCK_HEADER.size", "self.pos"],
-            "pos_v": ["_BLOCK_HEADER.size", "self.key_len", "self.pos"],
-            "end": ["self.pos", "self.size"]}
-    for name, terms in want.items():
+    # UKVRecord geometry, by value: each property is evaluated on a record with symbolic fields (getters may be written in terms of one
+    # another - `end = pos_v + record_len` - or of the fields; what counts is the offset they denote)
+    from ..affine import Aff as _Aff, Record as _Record, StreamInterp as _SI
+
+    _it = _SI(chk.prog, put, {"_BLOCK_HEADER": len(fields), "_FILE_HEADER": 3}, rec)
+    _P, _K, _R, _H = _Aff.sym("pos"), _Aff.sym("key_len"), _Aff.sym("record_len"), _Aff.sym("_BLOCK_HEADER.size")
+    _r = _Record(rec, {"pos": _P, "key_len": _K, "record_len": _R}, None)
+    want = {"size": _H + _K + _R, "pos_k": _P + _H, "pos_v": _P + _H + _K, "end": _P + _H + _K + _R}
+    for name, w_ in want.items():
         mem = rec.members.get(name)
         chk.require(mem is not None and mem.getter is not None, f"UKVRecord.{name} vanished")
-        rets = [s for s in ast.walk(mem.getter) if isinstance(s, ast.Return)]
-        got = []
-
-        def flat(e):
-            if isinstance(e, ast.BinOp) and isinstance(e.op, ast.Add):
-                flat(e.left)
-                flat(e.right)
-            else:
-                got.append(norm(e))
-
-        flat(rets[0].value)
-        chk.decide(sorted(got) == sorted(terms), "C02.R4", f"{UKV}:UKVRecord.{name}", f"{rec.module.relpath}:{mem.getter.lineno}",
-                   " + ".join(got), f"UKVRecord.{name} = {' + '.join(got)}, expected {' + '.join(terms)}")
+        got = _it._record_attr(_r, name)
+        chk.decide(isinstance(got, _Aff) and (got - w_).is_zero(), "C02.R4", f"{UKV}:UKVRecord.{name}", f"{rec.module.relpath}:{mem.getter.lineno}",
+                   f"{name} = {got}", f"UKVRecord.{name} = {got if isinstance(got, _Aff) else '?'}, expected {w_}")
     # get reads record_len bytes at pos_v
     sk = calls_named(get.node, {"self._stream.seek"})
     rd = calls_named(get.node, {"self._stream.read"})
